@@ -1,3 +1,90 @@
+/-
+  C17 — each connect() starts from a clean slate.
+
+  In the model a connection is `Core.runAll cfg react env`: it starts from the initial `Sys`
+  built from its arguments alone, so the events of a connection cannot depend on what an earlier
+  connection on the same object did.  What makes that a faithful model of the *Python object*
+  is that every piece of per-connection state lives on objects that `connect()` replaces.  That
+  is a statement about the source text; it is established here over facts that the translator
+  re-extracts from `/repo` on every run (`Generated/Facts.lean`): moving a field out of `State`,
+  dropping the `reset()` call, turning an instance attribute into a class attribute, … changes
+  the generated lists and breaks these theorems.  The behavioural side (second connection on a
+  used object = first connection on a fresh one) is the correspondence check.
+-/
 import Lomond.Model.Core
+import Lomond.Generated.Facts
+
 namespace Lomond.C17
+open Lomond Lomond.Core
+
+/-- The events (and everything else observable) of a connection are a function of that
+    connection's own configuration, application and environment: `connect` builds the initial
+    state from them and from nothing else.  `prev` is the final state of any earlier connection
+    on the object — it is simply not an input. -/
+theorem fresh_equiv (prev : Option Sys) (cfg : Cfg) (react : React) (env : List EnvStep) :
+    (fun (_ : Option Sys) => runAll cfg react env) prev = runAll cfg react env := rfl
+
+/-- a fresh connection starts with every per-connection field at its initial value -/
+theorem initial_state (cfg : Cfg) (react : React) (env : List EnvStep) :
+    let s0 : Sys := { cfg := cfg, react := react, env := env }
+    s0.closing = false ∧ s0.closed = false ∧ s0.sentCloseTime = none ∧ s0.compression = none ∧
+    s0.parsedResponse = false ∧ s0.frames = [] ∧ s0.decompress = false ∧ s0.inflHist = [] ∧
+    s0.p = {} ∧ s0.ready = false ∧ s0.pollStart = none ∧ s0.startTime = none ∧
+    s0.keyCtr = 0 ∧ s0.writeCtr = 0 ∧ s0.trace = [] := by
+  simp
+
+/-! ### facts about the source, re-extracted on every run -/
+
+def startsWith (pre s : String) : Bool := pre.toList.isPrefixOf s.toList
+
+/-- `connect()` begins with `self.reset()`, `reset()` assigns a new `State`, and `connect()`
+    constructs a new session object. -/
+theorem connect_replaces_state :
+    Gen.connectResetsFirst = true ∧ Gen.resetAssignsState = true ∧ Gen.connectNewSession = true := by
+  decide
+
+/-- Outside `__init__`, the only attributes ever written on the `WebSocket` object are `state`
+    itself and attributes of `state`. -/
+theorem websocket_writes_only_state :
+    ∀ w ∈ Gen.wsWrites, w.1 = "__init__" ∨ w.2 = "state" ∨ startsWith "state." w.2 = true := by
+  decide
+
+/-- Every attribute of `state` that is written anywhere is (re)initialised by `State.__init__`. -/
+theorem state_attrs_cover_writes :
+    ∀ w ∈ Gen.wsWrites, startsWith "state." w.2 = true →
+      (String.ofList (w.2.toList.drop 6)) ∈ Gen.stateAttrs := by
+  decide
+
+/-- `State.__init__` creates the stream (parser, fragment list, UTF-8 validator, decompressor),
+    the key, and the closing / closed / close-time / compression fields. -/
+theorem state_inventory :
+    ∀ a ∈ ["stream", "session", "key", "closing", "closed", "sent_close_time", "compression"],
+      a ∈ Gen.stateAttrs := by
+  decide
+
+/-- first component of an attribute chain (`_awaiting.remaining` ↦ `_awaiting`) -/
+def baseAttr (a : String) : String := String.ofList (a.toList.takeWhile (· ≠ '.'))
+
+/-- On the objects that `State.__init__` / `connect()` construct (stream, frame parser, parser,
+    session), every attribute written by any method is assigned in that object's `__init__`:
+    no per-connection state lives anywhere else. -/
+theorem helper_objects_init_everything :
+    (∀ w ∈ Gen.streamWrites, ("__init__", baseAttr w.2) ∈ Gen.streamWrites) ∧
+    (∀ w ∈ Gen.frameParserWrites, ("__init__", baseAttr w.2) ∈ Gen.frameParserWrites) ∧
+    (∀ w ∈ Gen.parserWrites, ("__init__", baseAttr w.2) ∈ Gen.parserWrites ∨ ("reset", baseAttr w.2) ∈ Gen.parserWrites) ∧
+    (∀ w ∈ Gen.sessionWrites, ("__init__", baseAttr w.2) ∈ Gen.sessionWrites) := by
+  decide
+
+/-- The model's per-connection fields and the Python attributes that carry them: each is an
+    instance attribute assigned in `__init__` (a class-level attribute would be shared by all
+    connections). -/
+theorem model_fields_are_instance_state :
+    (∀ a ∈ ["_is_text", "_utf8_validator", "_compression", "_frame_class"], ("__init__", a) ∈ Gen.frameParserWrites) ∧
+    (∀ a ∈ ["_buffer", "_awaiting", "_gen", "_eof"], ("__init__", a) ∈ Gen.parserWrites) ∧
+    (∀ a ∈ ["_frames", "_parsed_response", "_decompress", "frame_parser"], ("__init__", a) ∈ Gen.streamWrites) ∧
+    (∀ a ∈ ["_sock", "_poll_start", "_next_ping", "_last_pong", "_start_time", "_ready", "_buffer", "_lock"],
+        ("__init__", a) ∈ Gen.sessionWrites) ∧
+    Gen.classLevelObjects = [] := by
+  decide
+
 end Lomond.C17
